@@ -416,7 +416,7 @@ def gzip(compress_level=5, mime_types=['text/html', 'text/plain'],
                 if debug:
                     cherrypy.log('Zero gzip qvalue: %s' % coding,
                                  context='TOOLS.GZIP')
-                return
+                break
 
             if ct not in mime_types:
                 # If the list of provided mime-types contains tokens
@@ -460,6 +460,14 @@ def gzip(compress_level=5, mime_types=['text/html', 'text/plain'],
 
             return
 
-    if debug:
-        cherrypy.log('No acceptable encoding found.', context='GZIP')
-    cherrypy.HTTPError(406, 'identity, gzip').set_response()
+    # No gzip coding with a non-zero qvalue is listed. The identity coding
+    # stays acceptable unless the client explicitly refuses it with
+    # "identity;q=0" or "*;q=0" (RFC 7231, section 5.3.4), so only then
+    # (and when no wildcard admits another coding) is nothing acceptable.
+    refused = [coding.value for coding in acceptable if coding.qvalue == 0]
+    wildcard = [coding for coding in acceptable
+                if coding.value == '*' and coding.qvalue != 0]
+    if ('identity' in refused or '*' in refused) and not wildcard:
+        if debug:
+            cherrypy.log('No acceptable encoding found.', context='GZIP')
+        cherrypy.HTTPError(406, 'identity, gzip').set_response()
